@@ -359,9 +359,23 @@ func lkSweep() []lkModel {
 				continue // the catalogue lists a weighted kind twice
 			}
 			kinds[kind] = true
-			for ab := 0; ab < 4; ab++ {
+			// both parities of the two selectors; kinds whose selector indexes a list of options get the whole list
+			sel := [][2]int{{0, 0}, {1, 0}, {0, 1}, {1, 1}}
+			switch kind {
+			case "retype":
+				sel = [][2]int{{0, 0}, {0, 1}, {0, 2}, {0, 3}, {0, 4}, {0, 5}, {0, 6}, {1, 0}, {1, 6}}
+			case "results":
+				sel = [][2]int{{0, 0}, {1, 0}, {2, 0}, {3, 0}, {4, 0}, {5, 0}, {6, 0}}
+			case "verb":
+				sel = [][2]int{{0, 0}, {1, 0}, {2, 0}, {3, 0}, {4, 0}, {5, 0}}
+			case "aliasWrongType":
+				sel = [][2]int{{0, 0}, {0, 1}, {0, 2}, {0, 3}, {0, 4}, {1, 0}}
+			case "strayAnn", "bodyPrimitive":
+				sel = [][2]int{{0, 0}, {1, 0}, {2, 0}}
+			}
+			for _, ab := range sel {
 				mm := m
-				mm.Perts = []lkPert{{Kind: kind, A: ab % 2, B: ab / 2}}
+				mm.Perts = []lkPert{{Kind: kind, A: ab[0], B: ab[1]}}
 				if base == 1 && kind != "siblingConflict" {
 					// the second base project carries a route-conflict warning on the target's controller throughout
 					mm.Perts = append([]lkPert{{Kind: "siblingConflict"}}, mm.Perts...)
